@@ -245,6 +245,53 @@ fn check_long_paths(ctx: &mut Ctx) {
     ctx.rng = rng;
 }
 
+/// big containers: a map with thousands of keys (short, long with a shared 40-byte prefix, differing in the last byte, in case, by a
+/// trailing space) and a list of 70 000 elements; every lookup must give that key's / that position's own id
+fn check_big_containers(ctx: &mut Ctx) {
+    let mut rng = ctx.rng.clone();
+    let prefix = "a_key_with_a_rather_long_common_prefix__";
+    let mut keys: Vec<String> = (0..3_000).map(|i| format!("k{i:05}")).collect();
+    keys.extend((0..1_500).map(|i| format!("{prefix}{i}")));
+    keys.extend((0..200).map(|i| format!("{prefix}{}", "x".repeat(i))));
+    for k in ["K00001", "k00001 ", " k00001", "k0001", "k000010", "k", "", "é", "e\u{301}", "ｋ00001"] {
+        keys.push(k.to_string());
+    }
+    let m: BTreeMap<String, Value> = keys.iter().enumerate().map(|(i, k)| (k.clone(), Value::Int(i as i128))).collect();
+    let list: Vec<Value> = (0..70_000).map(|i| Value::Int(1_000_000 + i)).collect();
+    let facts = Value::Map([("big".to_string(), Value::Map(m)), ("xs".to_string(), Value::Vec(list)), ("k00001".to_string(), Value::Int(-1))].into_iter().collect());
+    ctx.align();
+    let mut probes: Vec<String> = vec![];
+    for _ in 0..ctx.tier.of(400, 4_000) {
+        probes.push(keys[rng.below(keys.len())].clone());
+    }
+    for near in ["k03000", "k02999", "k0000", "k00000x", "a_key_with_a_rather_long_common_prefix__", "a_key_with_a_rather_long_common_prefix__1500", "a_key_with_a_rather_long_common_prefix_", "K00002", "nosuch"] {
+        probes.push(near.to_string());
+    }
+    for k in probes {
+        if !ctx.mine() {
+            continue;
+        }
+        check_path(ctx, &facts, "big", &[Step::Field(k.clone())], false);
+        check_path(ctx, &facts, "facts", &[Step::Field("big".into()), Step::Field(k)], false);
+        ctx.hit("big-containers:map-lookups");
+    }
+    let mut idxs: Vec<usize> = vec![0, 1, 69_999, 70_000, 70_001, usize::MAX, usize::MAX - 1, 1 << 32, (1 << 32) + 5, 1 << 31, 65_535, 65_536, 65_537];
+    for k in 0..17 {
+        idxs.extend([(1usize << k).saturating_sub(1), 1 << k, (1 << k) + 1]);
+    }
+    for _ in 0..ctx.tier.of(200, 2_000) {
+        idxs.push(rng.below(70_100));
+    }
+    for i in idxs {
+        if !ctx.mine() {
+            continue;
+        }
+        check_path(ctx, &facts, "xs", &[Step::Idx(i)], i % 3 == 0);
+        ctx.hit("big-containers:list-lookups");
+    }
+    ctx.rng = rng;
+}
+
 /// index steps written with leading zeros or many digits, through text only
 fn check_index_spellings(ctx: &mut Ctx) {
     let list: Vec<Value> = (0..12).map(|i| Value::Int(100 + i)).collect();
@@ -520,6 +567,7 @@ fn run(ctx: &mut Ctx) {
     }
     ctx.rng = rng.clone();
     check_long_paths(ctx);
+    check_big_containers(ctx);
     if ctx.shard == 0 {
         check_index_spellings(ctx);
         check_symbol_paths(ctx);
@@ -544,6 +592,7 @@ fn finish(m: &Merged, tier: Tier) -> Finish {
         f.floors.push(floor(format!("name lookups {class}: {}", m.c(&format!("name:{class}"))), m.c(&format!("name:{class}")) >= 100));
     }
     f.floors.push(floor(format!("long-path length classes (steps / 20) seen: {}", m.prefix_count("long-path:")), m.prefix_count("long-path:") >= 11));
+    f.floors.push(floor(format!("lookups in a 4700-key map / a 70 000-element list: {} / {}", m.c("big-containers:map-lookups"), m.c("big-containers:list-lookups")), m.c("big-containers:map-lookups") >= 400 && m.c("big-containers:list-lookups") >= 200));
     f.extras.insert("long_paths".into(), json!(m.prefix_map("long-path:")));
     f.extras.insert("paths".into(), json!(m.prefix_map("path:")));
     f.extras.insert("names".into(), json!(m.prefix_map("name:")));
